@@ -124,6 +124,8 @@ def parse_template(path):
             sink = None
         elif w[0] == "rules":
             curfn.rules = w[1:]
+        elif w[0] == "rules+":
+            curfn.rules = curfn.rules + w[1:]
         elif w[0] == "ret":
             curfn.ret = w[1]
         elif w[0] == "expect":
@@ -240,7 +242,7 @@ def _splice_fn(text, f, info, canary):
             _check_ghost(ls["lines"], where)
             inv = "\n".join("        " + l for l in ls["lines"])
             if ls["iter"]:
-                pat = re.compile(r"__vx_f%d_iter\((\w+),\s*(.*?)\)\s*\{\s*__VX_F%d_LOOP_%d__;" % (j, j, k), re.S)
+                pat = re.compile(r"__vx_f%d_iter\(\s*(\w+),\s*(.*?),?\s*\)\s*\{\s*__VX_F%d_LOOP_%d__;" % (j, j, k), re.S)
                 text, n = pat.subn(lambda m: f"{m.group(1)}: {m.group(2)}\n{inv}\n    {{" + can, text)
             else:
                 pat = re.compile(r"\{\s*__VX_F%d_LOOP_%d__;" % (j, k))
